@@ -3,11 +3,11 @@
 //@ kind W
 //@ def quick NV=4 NRECON=6 NSINK=10
 //@ def thorough NV=6 NRECON=8 NSINK=10
-//@ cbmc quick --unwind 9 --unwindset DOMLSSerializerImpl_procUnrepCharInCdataSection.0:5,DOMLSSerializerImpl_procUnrepCharInCdataSection.1:5,DOMLSSerializerImpl_procUnrepCharInCdataSection.2:5,XMLString_binToTextUL.0:5,XMLString_binToTextUL.1:5,XMLString_binToTextUL.2:5,XMLString_binToTextUL.3:5 --unwinding-assertions
-//@ cbmc thorough --unwind 9 --unwindset DOMLSSerializerImpl_procUnrepCharInCdataSection.0:7,DOMLSSerializerImpl_procUnrepCharInCdataSection.1:7,DOMLSSerializerImpl_procUnrepCharInCdataSection.2:7,XMLString_binToTextUL.0:5,XMLString_binToTextUL.1:5,XMLString_binToTextUL.2:5,XMLString_binToTextUL.3:5 --unwinding-assertions
+//@ cbmc quick --unwind 9 --unwindset DOMLSSerializerImpl_procUnrepCharInCdataSection.0:5,DOMLSSerializerImpl_procUnrepCharInCdataSection.1:5,DOMLSSerializerImpl_procUnrepCharInCdataSection.2:5,XMLString_binToTextUL.2:5,XMLString_binToTextUL.6:5 --unwinding-assertions
+//@ cbmc thorough --unwind 9 --unwindset DOMLSSerializerImpl_procUnrepCharInCdataSection.0:7,DOMLSSerializerImpl_procUnrepCharInCdataSection.1:7,DOMLSSerializerImpl_procUnrepCharInCdataSection.2:7,XMLString_binToTextUL.2:5,XMLString_binToTextUL.6:5 --unwinding-assertions
 //@ entry h_unrep_cdata
 //@ note W: complete for every CDATA text of length <= NV that is well-formed UTF-16 over the alphabet { 'a', ']', U+00E9, U+20AC, lead surrogate D83D, trail surrogate DE00 } x every answer of the transcoder (canTranscodeTo = nondet predicate per alphabet symbol, for the terminator and for supplementary code points); XMLString::binToText (int -> long -> unsigned long overloads, the ones C++ overload resolution picks for an XMLCh argument), stringLen and both loops of procUnrepCharInCdataSection are the real text, fully unwound
-//@ note stubs (contracts/domser_stubs.inc): fFormatter->formatBuf and `*fFormatter << ..` feed the streaming reader of the output (CDATA sections + hexadecimal character references), reportError records (severity, code, node), fFormatter->getTranscoder()->canTranscodeTo is TC_canTranscodeTo (table CAN[] given by VERIF_INPUT)
+//@ note stubs (contracts/domser_stubs.inc): fFormatter->formatBuf and `*fFormatter << ..` feed the streaming reader of the output (CDATA sections + hexadecimal character references; the formatBuf call for a run of representable characters is SINK_buf_cdata, the one for the reference buffer is SINK_buf_ref: same sink, read in one piece), reportError records (severity, code, node), fFormatter->getTranscoder()->canTranscodeTo is TC_canTranscodeTo (table CAN[] given by VERIF_INPUT)
 //@ note assumption on the transcoder: it answers alike for a surrogate code unit and for a supplementary code point (every transcoder in the tree does: the table transcoders say no, the UTF-8/16/UCS-4 ones say yes); lone surrogates are excluded (ensureValidString rejects them before the text gets here)
 //@ note spec (C12): the character data a parser reads back is the text, in order, nothing lost; a character comes from a character reference (outside any CDATA section, the grammar allows none inside) iff the transcoder cannot represent it, and every reference is to a legal XML character (XML 1.0 WFC "Legal Character": a surrogate code point is none, a supplementary character needs ONE reference to its code point)
 #define VERIF_DEFINE_GHOSTS
@@ -62,7 +62,8 @@ call XMLString_binToText => XMLString_binToTextI
 throws XMLString_binToTextI
 sub fFormatter->getTranscoder\(\)->canTranscodeTo\( => TC_canTranscodeTo(
 sub \*fFormatter << XMLFormatter::NoEscapes << (gStartCDATA|gEndCDATA); => SINK_mode(XMLFormatter::NoEscapes); SINK_str(\1);
-sub fFormatter->formatBuf\s*\( => SINK_buf(
+sub fFormatter->formatBuf\s*\(\s*srcPtr => SINK_buf_cdata(srcPtr
+sub fFormatter->formatBuf\s*\(\s*tmpBuf => SINK_buf_ref(tmpBuf
 sub reportError\( => SER_reportError(
 @*/
 
